@@ -3,14 +3,14 @@
 import json, os
 ROOT = os.path.dirname(os.path.dirname(os.path.abspath(__file__)))
 CLAIMS = {
- 'C01': ('proof', 'Theorems C01_handout / C01_start / C01_invalid_not_reported hold for every world (any disk damage) and every call of the model; the model is tied to /repo by a differential run of the extracted model against the real library (C API) with damage at every position of lifecycle histories, with and without a signing key.',
+ 'C01': ('proof', 'Theorems C01_handout / C01_start / C01_invalid_not_reported hold for every world (any disk damage) and every call of the model; C01_records_are_issued + C01_size_is_install_size: over every history of calls and damage (artifacts, state.json, junk arbitrary; patches_state.json deleted, garbled or stale) the handed-out file has exactly the length of the inflated download that passed the hash gate when its record was installed; the model is tied to /repo by a differential run of the extracted model against the real library (C API) with damage at every position of lifecycle histories, with and without a signing key.',
          'Model is hand-written; correspondence is bounded differential testing. sha256 / RSA verification / base64 are oracles (uninterpreted in the theorems).'),
  'C02': ('proof', 'I-ban invariant for every call, ban monotonicity within a release, failure and crash detection ban the booting number, offers of a banned number answer bad-patch with no download, and C02_banned_forever over all histories within the release; correspondence on failure/kill at every position x continuations.',
          'Model hand-written; correspondence bounded. Quantifies over histories without outside damage to the two state files, as the property does.'),
  'C05': ('proof', 'C05_installed_only_if_verified (installed => inflate ok, digest equals advertised hash, recorded meta and artifact are that file), C05_rejected_download_frame, C05_failed_update_unchanged; correspondence on byte-level mutants of genuine zstd+bidiff patches, wrong base, hash-string variants through the real inflate path.',
          'zstd decoding (incl. partial output on failure) and sha256 are oracles; the bipatch reader is modelled (Codec.v) and runs on the real decompressed bytes.'),
- 'C06': ('proof', 'Error frames for check failure, contradictory response and download failure, C06_failed_update_unchanged and C06_then_healthy_installs proved on the model; correspondence with failures injected at each network callback from lifecycle states. PARTIAL: the reqwest transport (sockets, HTTP statuses, body parsing) is not modelled; only the updater logic above the callbacks is proved.',
-         'Transport layer is outside the model (labelled partial).'),
+ 'C06': ('proof', 'Error frames for check failure, contradictory response and download failure, C06_failed_update_unchanged and C06_then_healthy_installs proved on the model; correspondence (a) with failures injected at each network callback from lifecycle states and (b) through the library\'s default reqwest callbacks against a scripted local HTTP server (refused / closed / reset / stalled connections, non-HTTP bytes, error statuses, truncated / unterminated / badly chunked bodies, 50 response bodies with wrong types, missing or duplicate fields, extreme numbers, trailing data, bad UTF-8), each mapped to what the model should see.',
+         'The theorems are about the updater logic above the callbacks; the transport (kernel TCP, hyper, reqwest, serde text level) is exercised against the scripted server and tied to the model by correspondence, not modelled.'),
  'C07': ('proof', 'C07_reported_is_signed (signature verifies over the hash of the CURRENT bytes), C07_fallback_same, C07_bad_key_rejects; correspondence with 10 signature variants x 4 configured keys and same-size/different-size tampering.',
          'RSA (ring) and base64 are oracles: the theorems are about what the updater does with their verdict.'),
  'C08': ('proof', 'C08_release_change_init, C08_first_queries, C08_any_section_resets, C08_old_numbers_are_fresh; correspondence over every depth-k old-release history x upgrade/downgrade. The crash-interrupted first launch is decided under C04.',
@@ -25,18 +25,18 @@ CLAIMS = {
          'When a key is configured, install_selects assumes the served signature verifies (otherwise C07 rightly discards the patch).'),
  'C10': ('proof', 'C10_rollback_now_check / _update (any list: order, duplicates, unknown numbers), C10_fallback_target, C10_gone_frame and C10_sticks (every history without an install of x), C10_gone_not_reported. Correspondence: rollback lists through both entry points from 7 lifecycle states.',
          'Model hand-written; correspondence bounded.'),
- 'C17': ('proof', 'C17_success_event (iff), C17_failure_queues_one, C17_crash_detection_queues_one, C17_update_flushes (3 oldest, in order, before the check; only a download event after; iff installed), C17_update_empties_queue, C17_payload. Correspondence: report-callback log order and payload on exhaustive lifecycle histories.',
+ 'C17': ('proof', 'C17_success_event (iff), C17_failure_queues_one, C17_crash_detection_queues_one, C17_update_flushes (3 oldest, in order, before the check; only a download event after; iff installed), C17_update_empties_queue, C17_payload, C17_quiet_calls / C17_quiet_calls_keep_queue (queries, launch start/success, checks and restarts neither queue, drop nor send events, success excepted). Correspondence: fallback-chain histories and stored queues of 0..6 events; report-callback log order and payload on exhaustive lifecycle histories.',
          'Event timestamps ignored; asynchronous event threads are joined by the harness before the trace line is taken.'),
  'C18': ('proof', 'C18_start_sets_current, C18_current_reported, C18_current_frame / C18_current_persists (booting, then promoted), C18_no_spurious_restart_required, C18_after_restart. Correspondence: current/next queries interleaved in exhaustive lifecycle histories.',
          'Rollback of the running patch and a second launch start in one process are outside the statement (as the property scopes them).'),
  'C19': ('proof', 'C19_after_success, C19_failed, C19_crash_detected, C19_rolled_back, C19_superseded, C19_release_change as one-step post-conditions on the model; correspondence: directory listing after every op of exhaustive lifecycle histories incl. junk directories and release changes.',
          'Fault-free semantics (deletions that fail are covered under C04).'),
- 'C16': ('proof', 'C16_varint_u64 / C16_varint_i64 (all usize / i64 values), C16_roundtrip (bidiff Translator+Writer then bipatch Reader reproduce new for ANY well-formed match list, all sizes < 2^63), C16_hash_gate, C16_end_to_end (library installs what the tool built, given a lossless compressor). Correspondence per (base,new) pair: the tool\'s real patch installs through the library and the artifact equals new; the model writer\'s bytes equal the real bidiff stream; wf_matches holds on the matches bidiff emits; model reader on the real stream gives new.',
-         'zstd round trip is a hypothesis of C16_end_to_end; the suffix-array matcher is only required to emit well-formed matches (checked on every generated pair, not proved); the chunked Reader is modelled by its one-shot semantics (chunk independence exercised by sizes crossing 4096/8192/65536, not proved).'),
+ 'C16': ('proof', 'C16_varint_u64 / C16_varint_i64 (all usize / i64 values), C16_roundtrip (bidiff Translator+Writer then bipatch Reader reproduce new for ANY well-formed match list, all sizes < 2^63), C16_any_buffer_schedule / C16_streamed_roundtrip (bipatch::Reader::read as a state machine pulled with ANY sequence of non-empty buffer sizes and any scratch size equals the one-shot semantics, error for error), C16_hash_gate, C16_end_to_end (library installs what the tool built, given a lossless compressor). Correspondence per (base,new) pair: the tool\'s real patch installs through the library and the artifact equals new; the model writer\'s bytes equal the real bidiff stream; wf_matches holds on the matches bidiff emits; model reader on the real stream gives new; model Reader state machine vs the real bipatch Reader under 6-7 buffer-size schedules on genuine, truncated and bit-flipped streams.',
+         'zstd round trip is a hypothesis of C16_end_to_end; the suffix-array matcher is only required to emit well-formed matches (checked on every generated pair, not proved); the pipe between the zstd thread and the Reader only ever feeds read_exact / byte reads, so its chunking is not modelled.'),
  'C11': ('proof', 'Calls are programs of critical sections (Blocks.v); C11_update_is_its_blocks / C11_check_is_its_blocks (refinement to the sequential calls); for EVERY number of threads, call lists and schedules: C11_any_schedule_safe (release-stable disk + I-ban), C11_banned_stays_banned, C11_install_block_respects_ban, C11_query_intact, C11_last_good_survives. Correspondence: real threads under a scheduler that decides every acquisition of the config mutex and every update try_lock (verif-hooks sync points) vs the model executing the same block order.',
          'Interleavings at lock-acquisition granularity: all shared state is guarded by the config mutex; network callbacks run unlocked on thread-local data. Memory-model effects below that granularity are outside the model.'),
- 'C12': ('proof', 'PARTIAL (structural half). C12_call_trace_wf: for every call from every world the calling thread never re-enters the config mutex, runs every network callback with it released, tries the update mutex only with it released, and holds nothing on return; C12_second_update_refused; C12_step_decreases_work / C12_block_advances (no call waits while holding a lock, every call terminates, no waiting cycle). Correspondence: the real per-call lock/network action trace (verif-hooks sync events + thread-local lock depth read inside the network callbacks) equals the model trace on every call of exhaustive histories; hung-connection scenarios with a stalled patch check and a second thread issuing queries, reports, a check and a second update.',
-         'Wall-clock promptness is runtime behaviour: only a 5 s bound in the hung-connection scenarios is enforced. OS mutex fairness is assumed.'),
+ 'C12': ('proof', 'PARTIAL (structural half). C12_static_lock_discipline: over the call-site table regenerated from library/src on every run, no call made inside a config-lock closure by the thread holding the lock is, or can reach through any call chain on that thread, a network callback, a config-lock acquisition or the update-lock acquisition (covers paths no schedule exercises). C12_call_trace_wf: for every call from every world the calling thread never re-enters the config mutex, runs every network callback with it released, tries the update mutex only with it released, and holds nothing on return; C12_second_update_refused; C12_step_decreases_work / C12_block_advances (no call waits while holding a lock, every call terminates, no waiting cycle). Correspondence: the real per-call lock/network action trace (verif-hooks sync events + thread-local lock depth read inside the network callbacks) equals the model trace on every call of exhaustive histories; hung-connection scenarios with a stalled patch check and a second thread issuing queries, reports, a check and a second update.',
+         'Wall-clock promptness is runtime behaviour: only a 5 s bound in the hung-connection scenarios is enforced. OS mutex fairness is assumed. The call-site translator is lexical (closure spans, callback aliases bound from network_hooks, names ending in _fn/_hook); calls through other indirections are only seen by the runtime trace check.'),
  'C13': ('proof', 'PARTIAL by nature. C13_sites_are_the_ledger (the explicit panic sites / unsafe blocks / thread spawns of the current non-test sources, regenerated by the translator, equal the audited ledger with a guard per site) and C13_total_and_in_domain (every call of the model returns a value of its documented domain from every world). Exercised, not proved: malformed JSON/YAML/fs layouts, extreme response values, random call orders with a panic hook on every thread and exit-status monitoring.',
          'Panics inside dependencies (serde, zstd, ring, reqwest, std thread spawn) cannot be modelled; the JSON/YAML text level is abstracted (JGarbage).'),
  'C15': ('proof', 'PARTIAL. Over tables regenerated from the Rust sources, the generated header and the Dart bindings on every run: C15_status_constants, C15_status_discriminants, C15_model_status_codes, C15_signatures, C15_structs, C15_layouts (LP64/ILP32/LLP64), C15_dart_handles_all_statuses, plus a small ownership ledger model. Checked outside the proof: nm -D of the cdylib, every status provoked through the C API, one scenario under valgrind memcheck.',
